@@ -37,6 +37,8 @@ MEANING = {1: "jump list has a zero or repeated jump", 2: "kinetic states differ
            3: "omega1 classes are not an exact-once closed classification of the swing jumps",
            4: "omega2 classes are not an exact-once closed classification of the exchanges"}
 
+WMAX = 1.5e7      # estimated work of one coqc call (calibrated, see design_notes/C26.md)
+
 OMEGA_IMPORTS = """From Coq Require Import List ZArith.
 From Onsager Require Import Model.Stars Model.OmegaNet.
 Import ListNotations.
@@ -169,7 +171,7 @@ def run(ck):
     vm_max_states = ck.n(140, 320)          # VacancyMediated construction cost grows fast
     coq_cost_budget = ck.n(7e7, 8e8)      # sum of transitions * |G| * states sent to the model
     coq_case_max = ck.n(1.5e7, 2.5e8)
-    defs, runs, meta = [], [], []
+    defs, runs, meta, wts = [], [], [], []
     skipped = {"nonpercolating": 0, "construct-failed": 0, "geometry": 0, "coq-budget": 0, "vacancymediated-too-large": 0}
 
     def violation(key, msg, info, detail=None):
@@ -195,6 +197,19 @@ def run(ck):
         if len(c_.G) != order_:
             raise RuntimeError("chiral corpus crystal %s has a point group of order %d, expected %d" % (nm, len(c_.G), order_))
         corpus.append(("chiral-" + nm, c_, chem_, cut_))
+    # low-symmetry multi-site crystals (triclinic / monoclinic, 2-3 sites, rational two-decimal data): with Nthermo = 2 the kinetic
+    # range is three jumps, where a state can be closer to the solute than every two-jump state it is reached from
+    c_, chem_, cut_ = sc.lowsym_demo()
+    corpus.append(("lowsym-demo", c_, chem_, cut_))
+    nlow = 0
+    for _ in range(ck.n(12, 60)):
+        if nlow >= ck.n(3, 16): break
+        r = sc.lowsym_crystal(rng, 3 if rng.random() < 0.8 else 2)
+        if r is None: continue
+        net = sc.lowsym_network(r[1], r[2], rng, maxjumps=ck.n(24, 36))
+        if net is None: continue
+        nlow += 1
+        corpus.append((r[0], r[1], r[2], net[0]))
     ncr = 0
     for label, crys, chem, fixedcut in itertools.chain(corpus, ((a, b, c, None) for a, b, c in gen.pool(rng, ncrys, random_frac=0.55))):
         ncr += 1
@@ -276,7 +291,7 @@ def run(ck):
                 runs.append("run_omega J%d %d%%nat %d%%nat %s %s G%d %s %s %s %s %s" % (
                     cid, nsites, Nth + 1, "true" if korigin else "false", "true" if prune else "false", cid, sc.c_pslist(sts),
                     c_classes(c1), sc.c_natlist(t1), c_classes(c2), sc.c_natlist(t2)))
-                meta.append(info)
+                meta.append(info); wts.append(cost)
             else:
                 skipped["coq-budget"] += 1
 
@@ -343,7 +358,7 @@ def run(ck):
                 hstats["vacancymediated-too-large"] += 1
     codes = []
     try:
-        codes = sc.run_chunks(ck, "omega", "".join(defs), runs, OMEGA_IMPORTS, chunk=5, workers=6)
+        codes = sc.run_chunks(ck, "omega", defs, runs, OMEGA_IMPORTS, chunk=12, workers=6, weights=wts, wmax=WMAX)
     except CoqFailure as e:
         ck.broken_proof = "correspondence Model/OmegaNet.run_omega: %s" % e
     for info, c in zip(meta, codes):
